@@ -148,6 +148,35 @@ def outTok : Out → String
 structure Drv where
   rfb : Option (St RSt) := none
   zq : List (Option Bytes) := []
+  cv : Canvas := {}
+  mode : String := "RGBX"
+
+/-- tabulate an image (driver-side optimisation: same pixels inside the bounds, constant-time lookups) -/
+def freezeImg (i : Img) : Img :=
+  let arr : Array RGB := Id.run do
+    let mut a := Array.mkEmpty (i.w * i.h)
+    for y in [0:i.h] do
+      for x in [0:i.w] do
+        a := a.push (i.get x y)
+    return a
+  ⟨i.w, i.h, fun x y => if x < i.w ∧ y < i.h then arr.getD (y * i.w + x) black else i.get x y⟩
+
+def freezeCv (cv : Canvas) : Canvas := { cv with screen := cv.screen.map freezeImg }
+
+def screenTok (cv : Canvas) : String :=
+  match cv.screen with
+  | none => "none"
+  | some s =>
+    let h : UInt64 := Id.run do
+      let mut h : UInt64 := 14695981039346656037
+      for y in [0:s.h] do
+        for x in [0:s.w] do
+          let p := s.get x y
+          h := (h ^^^ p.1.toUInt64) * 1099511628211
+          h := (h ^^^ p.2.1.toUInt64) * 1099511628211
+          h := (h ^^^ p.2.2.toUInt64) * 1099511628211
+      return h
+    s!"{s.w} {s.h} {h.toNat}"
 
 def kind? : String → Option ClientKind
   | "base" => some .base | "lib" => some .lib | "cli" => some .cli | _ => none
@@ -161,7 +190,7 @@ def doRfbNew (d : Drv) (args : List String) : Drv × String :=
     | some k, some pw, some sh, some enc, some pc, some nc, some pd, some lr, some qx, some ar, some ard =>
       let cfg : Cfg := { kind := k, hasPassword := pw, shared := sh, encoding := enc, pseudocursor := pc, nocursor := nc,
                          pseudodesktop := pd, lastRect := lr, qemuExt := qx, authResponse := ar, ardReply := ard }
-      ({ d with rfb := some ⟨RSt.init cfg d.zq, []⟩, zq := [] }, "ok")
+      ({ d with rfb := some ⟨RSt.init cfg d.zq, []⟩, zq := [], cv := { nocursor := nc } }, "ok")
     | _, _, _, _, _, _, _, _, _, _, _ => (d, "bad-op")
   | _ => (d, "bad-op")
 
@@ -172,7 +201,8 @@ def doRfbRecv (d : Drv) (args : List String) : Drv × String :=
     | some chunk =>
       let r := feed rfbMachine st chunk
       let toks := r.2.1.map outTok ++ (if r.2.2 then [] else ["diverged"])
-      ({ d with rfb := some r.1 }, s!"buf={r.1.buf.length} " ++ (if toks.isEmpty then "-" else " ".intercalate toks))
+      let cv := freezeCv (applyOuts r.1.s.core.imageMode d.cv r.2.1)
+      ({ d with rfb := some r.1, cv := cv }, s!"buf={r.1.buf.length} " ++ (if toks.isEmpty then "-" else " ".intercalate toks))
     | none => (d, "bad-op")
   | _, _ => (d, "bad-op")
 
@@ -183,9 +213,67 @@ def doRfbVmRecv (d : Drv) (args : List String) : Drv × String :=
     | some chunk =>
       let r := vmFeed st chunk
       let toks := r.2.1.map outTok ++ (if r.2.2 then [] else ["diverged"])
-      ({ d with rfb := some r.1 }, s!"buf={r.1.buf.length} " ++ (if toks.isEmpty then "-" else " ".intercalate toks))
+      let cv := freezeCv (applyOuts r.1.s.core.imageMode d.cv r.2.1)
+      ({ d with rfb := some r.1, cv := cv }, s!"buf={r.1.buf.length} " ++ (if toks.isEmpty then "-" else " ".intercalate toks))
     | none => (d, "bad-op")
   | _, _ => (d, "bad-op")
+
+/-! ## script compiler -/
+
+def hexW (x : Word) : String := hexOfStr (String.ofList x)
+
+def cmdTok : Cmd → String
+  | .keyPress k => "keyPress:" ++ hexW k
+  | .keyDown k => "keyDown:" ++ hexW k
+  | .keyUp k => "keyUp:" ++ hexW k
+  | .mouseMove x y => s!"mouseMove:{x}:{y}"
+  | .mousePress b => s!"mousePress:{b}"
+  | .mouseDown b => s!"mouseDown:{b}"
+  | .mouseUp b => s!"mouseUp:{b}"
+  | .mouseDrag x y => s!"mouseDrag:{x}:{y}"
+  | .pauseArg d => "pauseArg:" ++ hexW d
+  | .pauseDelay => "pauseDelay"
+  | .paste c => "paste:" ++ hexW c
+  | .captureScreen f => "captureScreen:" ++ hexW f
+  | .captureRegion f x y w h => s!"captureRegion:{hexW f}:{x}:{y}:{w}:{h}"
+  | .expectScreen f r => s!"expectScreen:{hexW f}:{hexW r}"
+  | .expectRegion f x y r => s!"expectRegion:{hexW f}:{x}:{y}:{hexW r}"
+
+def perrTok : PErr → String
+  | .index => "index" | .value => "value" | .parse => "parse" | .os => "os" | .fuel => "fuel"
+
+def wordOfHex (h : String) : Option Word := (strOfHex h).map String.toList
+
+/-- `compile <delay> F <name> <tokens,|-> <content|none> … FL <float words…> W <words…>` -/
+def doCompile (args : List String) : String :=
+  match args with
+  | dl :: rest =>
+    let rec split3 (xs : List String) (files : List (Word × List Word × Option (List Char))) :
+        Option (List (Word × List Word × Option (List Char)) × List String) :=
+      match xs with
+      | "F" :: n :: t :: c :: more =>
+        match wordOfHex n, (if t = "-" then some [] else (t.splitOn ",").mapM wordOfHex),
+              (if c = "none" then some none else (wordOfHex c).map some) with
+        | some n, some t, some c => split3 more (files ++ [(n, t, c)])
+        | _, _, _ => none
+      | other => some (files, other)
+    match parseBool? dl, split3 rest [] with
+    | some delay, some (files, "FL" :: more) =>
+      let fl := more.takeWhile (· ≠ "W")
+      let ws := (more.dropWhile (· ≠ "W")).drop 1
+      match fl.mapM wordOfHex, ws.mapM wordOfHex with
+      | some fl, some ws =>
+        let fs : FS := {
+          isFile := fun f => files.any fun e => e.1 == f,
+          tokens := fun f => match files.find? (fun e => e.1 == f) with | some e => e.2.1 | none => [],
+          read := fun f => match files.find? (fun e => e.1 == f) with | some e => e.2.2 | none => none,
+          isFloat := fun x => fl.contains x }
+        match compile fs delay 10000 ws with
+        | .ok cs => "ok " ++ (if cs.isEmpty then "-" else ";".intercalate (cs.map cmdTok))
+        | .error e => "err " ++ perrTok e
+      | _, _ => "bad-op"
+    | _, _ => "bad-op"
+  | _ => "bad-op"
 
 def handle (line : String) : String :=
   match (line.splitOn " ").filter (· ≠ "") with
@@ -194,6 +282,7 @@ def handle (line : String) : String :=
   | "speckey" :: args => doSpecKey args
   | "ptr" :: args => doPtr args
   | "lib" :: args => doLib args
+  | "compile" :: args => doCompile args
   | _ => "bad-op"
 
 def handleSt (d : Drv) (line : String) : Drv × String :=
@@ -206,6 +295,28 @@ def handleSt (d : Drv) (line : String) : Drv × String :=
   | "rfb-new" :: args => doRfbNew d args
   | "rfb-recv" :: args => doRfbRecv d args
   | "rfb-vmrecv" :: args => doRfbVmRecv d args
+  | ["rfb-screen"] => (d, screenTok d.cv)
+  | ["cv-new", nc, m] =>
+    match parseBool? nc, strOfHex m with
+    | some nc, some m => ({ d with cv := { nocursor := nc }, mode := m }, "ok")
+    | _, _ => (d, "bad-op")
+  | ["cv-upd", x, y, w, h, data] =>
+    match x.toNat?, y.toNat?, w.toNat?, h.toNat?, bytesOfHex data with
+    | some x, some y, some w, some h, some data => ({ d with cv := freezeCv (updateRect d.cv d.mode x y w h data) }, "ok")
+    | _, _, _, _, _ => (d, "bad-op")
+  | ["cv-resize", w, h] =>
+    match w.toNat?, h.toNat? with
+    | some w, some h => ({ d with cv := freezeCv (resizeDesktop d.cv w h) }, "ok")
+    | _, _ => (d, "bad-op")
+  | ["cv-cursor", x, y, w, h, img, m] =>
+    match x.toNat?, y.toNat?, w.toNat?, h.toNat?, bytesOfHex img, bytesOfHex m with
+    | some x, some y, some w, some h, some img, some m =>
+      ({ d with cv := freezeCv (updateCursor d.cv d.mode x y w h img m) }, "ok")
+    | _, _, _, _, _, _ => (d, "bad-op")
+  | ["rfb-ptr", x, y] =>
+    match x.toInt?, y.toInt? with
+    | some x, some y => ({ d with cv := { d.cv with ptrX := x, ptrY := y } }, "ok")
+    | _, _ => (d, "bad-op")
   | _ => (d, handle line)
 
 partial def loop (h : IO.FS.Stream) (out : IO.FS.Stream) (d : Drv) : IO Unit := do
